@@ -18,6 +18,8 @@ func (ex *Exec) execFunc(fn *ssa.Function, args, bindings []Value, st *State, pa
 	}
 	fr := &Frame{fn: fn, vals: map[ssa.Value]Value{}, args: args, bindings: bindings, loops: map[*ssa.BasicBlock]*loopCtx{}}
 	if parent != nil {
+		fr.outerN = ex.pendingN
+		ex.pendingN = nil
 		fr.depth = parent.depth + 1
 		fr.ghostPar = parent.ghostPar
 		fr.callStack = append(append([]string(nil), parent.callStack...), fnKeyOf(fn))
@@ -316,6 +318,11 @@ func (ex *Exec) evalInstr(fr *Frame, st *State, ins ssa.Instruction, v ssa.Value
 				// field of a global struct variable: treat global as object with symbolic address
 				addr := Var("g."+base.Loc.Glob+".addr", SInt)
 				return ex.fieldLoc(x.Type(), addr, deref(x.X.Type()), stt, x.Field)
+			case "elem":
+				// field of a struct stored in a slice / array element
+				return Value{T: x.Type(), Loc: &Loc{Kind: "elemfield", Obj: base.Loc.Obj, Idx: base.Loc.Idx, Struct: base.Loc.T, Path: "." + f.Name(), T: f.Type()}}
+			case "elemfield":
+				return Value{T: x.Type(), Loc: &Loc{Kind: "elemfield", Obj: base.Loc.Obj, Idx: base.Loc.Idx, Struct: base.Loc.Struct, Path: base.Loc.Path + "." + f.Name(), T: f.Type()}}
 			}
 			ex.unsupp("field address of location kind %s", base.Loc.Kind)
 		}
@@ -508,8 +515,9 @@ func (ex *Exec) makeSlice(st *State, t types.Type, elem types.Type, ln, cp *Term
 		return Int(0)
 	})
 	// allocation ghosts (bytes requested by this single make); allocations of a
-	// compile-time constant size of at most 64 bytes are not tracked
-	if cp.IsInt() && cp.Int.IsInt64() && cp.Int.Int64()*sizeofElem(elem) <= 64 {
+	// compile-time constant size of at most 4096 bytes (the reader's own allocation granule)
+	// are not tracked: the ghosts bound what client-controlled lengths can make the server allocate
+	if cp.IsInt() && cp.Int.IsInt64() && cp.Int.Int64()*sizeofElem(elem) <= 4096 {
 		return sliceVal(t, arr, Int(0), ln, cp)
 	}
 	sz := Mul(cp, Int(sizeofElem(elem)))
@@ -1098,6 +1106,29 @@ func (ex *Exec) doSpawn(fr *Frame, st *State, g *ssa.Go) {
 			tmp := &Contract{Ghosts: c.SpawnSets}
 			ex.applyGhostSets(env, tmp, st)
 		}
+	}
+	if ex.specs.Contracts[key] == nil && inRepo(callee) && len(callee.Blocks) > 0 {
+		// no contract for the started function: its body is executed on a copy of the state,
+		// so that the obligations inside it (preconditions of what it calls) are generated for
+		// the state it is started in; its effects are discarded (it runs concurrently)
+		fork := st.clone()
+		rt := callee.Signature.Results()
+		var resT types.Type = rt
+		if rt.Len() == 1 {
+			resT = rt.At(0).Type()
+		}
+		func() {
+			defer func() {
+				if r := recover(); r != nil {
+					if ap, ok := r.(abortPath); ok {
+						ex.unsupported[ap.why] = true
+						return
+					}
+					panic(r)
+				}
+			}()
+			ex.callByKey(fr, key, callee, args, bindings, resT, g.Pos(), nil, fork, func(*State, Value) {})
+		}()
 	}
 	for i, b := range bindings {
 		if b.Loc != nil && b.Loc.Kind == "cell" {
